@@ -23,7 +23,6 @@ import (
 	"encoding/json"
 	"fmt"
 	"io"
-	"net"
 	"os"
 	"os/exec"
 	"sort"
@@ -32,7 +31,6 @@ import (
 	"sync/atomic"
 	"time"
 
-	"github.com/ansible/receptor/pkg/backends"
 	"github.com/ansible/receptor/pkg/logger"
 	"github.com/ansible/receptor/pkg/netceptor"
 	"github.com/minio/highwayhash"
@@ -71,16 +69,17 @@ type SessSpec struct {
 	NodeCost   map[string]float64 `json:"node_cost,omitempty"`
 	HasAllowed bool               `json:"has_allowed,omitempty"`
 	Allowed    []string           `json:"allowed,omitempty"`
-	Transport  string             `json:"transport,omitempty"` // "" = scripted channel session, "tcp", "udp", "ext" (ExternalBackend over a framed net.Conn)
+	Transport  string             `json:"transport,omitempty"` // "" = scripted channel session; real transports: see sockets.go
 }
 
 type Step struct {
 	Sess      int    `json:"s"`
 	Op        string `json:"op"` // "send" | "hangup" | "raw" (socket transports: bytes written as they are, no framing)
 	Data      []byte `json:"d,omitempty"`
-	Fill      int    `json:"fill,omitempty"`  // op "raw": this many filler bytes (0xee) follow Data
-	PauseMs   int    `json:"pause,omitempty"` // op "raw": sleep after the write
-	NoBarrier bool   `json:"nb,omitempty"`    // do not wait for the node before the next step
+	Fill      int    `json:"fill,omitempty"`   // op "raw": this many filler bytes (0xee) follow Data
+	PauseMs   int    `json:"pause,omitempty"`  // socket transports: sleep after the write
+	WSType    int    `json:"wstype,omitempty"` // websocket transports, op "send": message type (0 = binary; 1 text, 8 close, 9 ping, 10 pong)
+	NoBarrier bool   `json:"nb,omitempty"`     // do not wait for the node before the next step
 }
 
 type CaseSpec struct {
@@ -93,6 +92,9 @@ type CaseSpec struct {
 	// StartTogether: all sessions are handed to the node before the first step (default); the
 	// racy C11 cases additionally release their steps without barriers.
 	SettleMs int `json:"settle_ms,omitempty"` // extra quiet time before observing (racy cases)
+	// SockGrace: wait up to 150 ms for the node to close a real-transport session before observing
+	// its fate (admission scenarios over sockets)
+	SockGrace bool `json:"sock_grace,omitempty"`
 	// WaitOpenAtMost (racy cases; -1/absent = off): before settling, wait up to 3 s until at most
 	// this many scripted sessions are still open (the number the generator knows must remain).
 	WaitOpenAtMost *int `json:"wait_open_at_most,omitempty"`
@@ -283,53 +285,6 @@ func (b *oneShot) Start(ctx context.Context, wg *sync.WaitGroup) (chan netceptor
 	return ch, nil
 }
 
-// ---------- real-socket sessions (oracle-only cases) ----------
-
-type sockPeer struct {
-	kind string
-	conn net.Conn
-}
-
-func (p *sockPeer) send(b []byte) {
-	if p.conn == nil {
-		return
-	}
-	_ = p.conn.SetWriteDeadline(time.Now().Add(time.Second))
-	if p.kind == "tcp" {
-		hdr := []byte{byte(len(b)), byte(len(b) >> 8)}
-		_, _ = p.conn.Write(append(hdr, b...))
-	} else {
-		_, _ = p.conn.Write(b)
-	}
-}
-
-func (p *sockPeer) raw(b []byte, fill int) {
-	if p.conn == nil {
-		return
-	}
-	_ = p.conn.SetWriteDeadline(time.Now().Add(2 * time.Second))
-	if fill > 0 {
-		f := make([]byte, fill)
-		for i := range f {
-			f[i] = 0xee
-		}
-		b = append(append([]byte{}, b...), f...)
-	}
-	_, _ = p.conn.Write(b)
-}
-
-// drain discards whatever the node writes to the peer (a net.Pipe has no buffer).
-func (p *sockPeer) drain() {
-	go func() {
-		buf := make([]byte, 65536)
-		for {
-			if _, err := p.conn.Read(buf); err != nil {
-				return
-			}
-		}
-	}()
-}
-
 // ---------- running one case against a real node ----------
 
 const barrierTimeout = 3 * time.Second
@@ -402,60 +357,22 @@ func runCase(spec *CaseSpec) (obs CaseObs) {
 			}
 			mods = append(mods, netceptor.BackendAllowedPeers(al))
 		}
-		switch ss.Transport {
-		case "tcp":
-			li, err := backends.NewTCPListener("127.0.0.1:0", nil, n.Logger)
-			if err == nil {
-				err = n.AddBackend(li, mods...)
+		if ss.Transport != "" {
+			p, err := openSocketPeer(ctx, n, ss.Transport, mods)
+			if p != nil {
+				defer p.shutdown()
 			}
 			if err != nil {
-				obs.Err = "tcp listener: " + err.Error()
+				obs.Err = ss.Transport + ": " + err.Error()
 				return obs
 			}
-			c, err := net.DialTimeout("tcp", li.GetAddr(), time.Second)
-			if err != nil {
-				obs.Err = "tcp dial: " + err.Error()
-				return obs
-			}
-			defer c.Close()
-			socks[i] = &sockPeer{"tcp", c}
-			socks[i].drain()
-		case "ext":
-			eb, err := netceptor.NewExternalBackend()
-			if err == nil {
-				err = n.AddBackend(eb, mods...)
-			}
-			if err != nil {
-				obs.Err = "external backend: " + err.Error()
-				return obs
-			}
-			c1, c2 := net.Pipe()
-			eb.NewConnection(netceptor.MessageConnFromNetConn(c1), true)
-			defer c2.Close()
-			socks[i] = &sockPeer{"tcp", c2}
-			socks[i].drain()
-		case "udp":
-			li, err := backends.NewUDPListener("127.0.0.1:0", n.Logger)
-			if err == nil {
-				err = n.AddBackend(li, mods...)
-			}
-			if err != nil {
-				obs.Err = "udp listener: " + err.Error()
-				return obs
-			}
-			c, err := net.Dial("udp", li.LocalAddr().String())
-			if err != nil {
-				obs.Err = "udp dial: " + err.Error()
-				return obs
-			}
-			defer c.Close()
-			socks[i] = &sockPeer{"udp", c}
-		default:
-			sess[i] = NewScriptSess()
-			if err := n.AddBackend(&oneShot{sess[i]}, mods...); err != nil {
-				obs.Err = "AddBackend: " + err.Error()
-				return obs
-			}
+			socks[i] = p
+			continue
+		}
+		sess[i] = NewScriptSess()
+		if err := n.AddBackend(&oneShot{sess[i]}, mods...); err != nil {
+			obs.Err = "AddBackend: " + err.Error()
+			return obs
 		}
 	}
 	// schedule
@@ -466,14 +383,17 @@ func runCase(spec *CaseSpec) (obs CaseObs) {
 		if socks[st.Sess] != nil {
 			switch st.Op {
 			case "send":
-				socks[st.Sess].send(st.Data)
+				socks[st.Sess].send(st.Data, st.WSType)
+				if st.PauseMs > 0 {
+					time.Sleep(time.Duration(st.PauseMs) * time.Millisecond)
+				}
 			case "raw":
 				socks[st.Sess].raw(st.Data, st.Fill)
 				if st.PauseMs > 0 {
 					time.Sleep(time.Duration(st.PauseMs) * time.Millisecond)
 				}
 			case "hangup":
-				_ = socks[st.Sess].conn.Close()
+				socks[st.Sess].hangup()
 			}
 			continue
 		}
@@ -590,6 +510,16 @@ func runCase(spec *CaseSpec) (obs CaseObs) {
 		if obs.Wedged == "" {
 			obs.Wedged = "status: Status()/node-state probe did not return within 4 s"
 		}
+	}
+	for i, p := range socks {
+		if p == nil || i >= len(obs.Sess) {
+			continue
+		}
+		// what the node wrote to a real transport arrives through the kernel: a short grace
+		for k := 0; k < 30 && spec.SockGrace && !p.Obs().Closed; k++ {
+			time.Sleep(5 * time.Millisecond)
+		}
+		obs.Sess[i] = p.Obs()
 	}
 	// packets reach the probe listener's reader goroutine one at a time: a sentinel written by
 	// the node itself marks the end of everything delivered before it
